@@ -410,6 +410,31 @@ SubprocessSet::WorkResult SubprocessSet::DoWork() {
   if (c >= (int)alts.size()) {
     interrupted_ = SIGINT;
     Record(Event::kInterrupt, -1);
+    // A console command shares the terminal's foreground process group: Ctrl-C reaches it together with ninja, and the real
+    // DoWork() reaps console processes (CheckConsoleProcessTerminated) *before* it looks at the interrupt.  Such a command is
+    // then a finished one that nobody has asked for yet, not a running one -- and still an interrupted command.
+    if (cfg.allow_interrupt) {
+      for (size_t i = 0; i < running_.size(); ++i) {
+        Subprocess* s = running_[i];
+        if (!s->use_console_) continue;
+        int died = g_cur.ch->Choose(3);   // 0: still alive when ninja looks, 1: gone without having written, 2: gone after writing part
+        if (died <= 0) continue;
+        RunCmd& rc = R.cmds[s->pid_];
+        rc.killed = true;
+        const CmdSpec& sp = rc.spec;
+        if (died == 2 && sp.valid) {
+          for (const string& o : sp.outs)
+            if (vfs::disk->Write(o, "PARTIAL from killed " + sp.id() + "\n")) rc.wrote = true;
+          if (!sp.depfile.empty()) vfs::disk->Write(sp.depfile, sp.outs[0] + ": \n");
+        }
+        Record(Event::kKilled, s->pid_);
+        s->exit_status_ = ExitInterrupted;
+        s->fd_ = -2;
+        finished_.push(s);
+        running_.erase(running_.begin() + i);
+        --i;
+      }
+    }
     return WorkResult::Interrupted;
   }
   // Completions are noticed in running_ order (as the real poll loop does).
